@@ -137,6 +137,11 @@ def jobs_for(prop, tier):
         ccaps = {"max_states": 16000 if q else 400000, "max_seconds": 400 if q else 3000}   # state cap: deterministic coverage
         for sp in conveyor_subjects(tier):
             jobs.append({"engine": "S", "prop": prop, "label": sp.label() + "#" + _h(sp), "spec": sp.to_json(), "caps": ccaps})
+        if prop == "C12":
+            for sp in conveyor_store_subjects(tier):
+                sp.kw["order_only"] = 1
+                jobs.append({"engine": "S", "prop": prop, "label": sp.label() + "#" + _h(sp), "spec": sp.to_json(),
+                             "caps": {"max_states": 9000 if q else 300000, "max_seconds": 900 if q else 3000}})
     elif prop == "C14":
         for sp in fleet_subjects(tier, c14=True):
             jobs.append({"engine": "S", "prop": prop, "label": sp.label() + "#" + _h(sp), "spec": sp.to_json(), "caps": caps})
@@ -144,15 +149,15 @@ def jobs_for(prop, tier):
 
 
 F_FAMILIES = {
-    "C03": ["lines", "congestion", "diamonds", "combiners"],
-    "C08": ["lines", "congestion", "diamonds", "combiners"],
-    "C09": ["lines", "congestion", "fans", "combiners"],
-    "C10": ["lines", "congestion", "diamonds", "fans", "combiners"],
-    "C15": ["diamonds", "fans", "combiners"],
-    "C16": ["combiners"],
-    "C17": ["lines", "congestion", "diamonds"],
-    "C18": ["lines", "congestion", "diamonds", "combiners"],
-    "C20": ["lines", "congestion", "diamonds", "fans", "combiners", "conveyors", "invalid", "c20_extra"],
+    "C03": ["lines", "congestion", "diamonds", "combiners", "splitters"],
+    "C08": ["lines", "congestion", "diamonds", "combiners", "splitters"],
+    "C09": ["lines", "congestion", "fans", "combiners", "splitters"],
+    "C10": ["lines", "congestion", "diamonds", "fans", "combiners", "splitters"],
+    "C15": ["diamonds", "fans", "combiners", "splitters"],
+    "C16": ["combiners", "splitters"],
+    "C17": ["lines", "congestion", "diamonds", "splitters", "combiners"],
+    "C18": ["lines", "congestion", "diamonds", "combiners", "splitters"],
+    "C20": ["lines", "congestion", "diamonds", "fans", "combiners", "splitters", "conveyors", "invalid", "c20_extra"],
 }
 
 
@@ -178,6 +183,9 @@ def run_job(job, seed):
         sp = Spec.from_json(job["spec"])
         prop = job["prop"]
         mons = list(M.MONITORS.get(prop, []))
+        if prop == "C12" and sp.get("order_only"):
+            from . import conveyor_ref
+            mons = [M.Avail, conveyor_ref.C12Order]
         if prop == "C04" and sp.kind in ("cconv", "sconv"):
             from . import conveyor_ref
             mons.append(conveyor_ref.C04Conv)
